@@ -361,6 +361,50 @@ def count_kept(alts, keep, rg):
     return max(alt(a) for a in alts)
 
 
+# ------------------------------------------------------------------ size of the EBNF expansion
+
+def expansion_estimate(G):
+    """largest number of BNF alternatives a single rule of G expands to ([..], ?, groups and small ~n..m are
+    multiplied out by lark).  Generators use it to stay away from grammars whose construction is merely expensive,
+    so that the step budget on construction can stay a termination criterion."""
+    worst = [1]
+
+    def item(it):
+        k = it[0]
+        if k in ('r', 't', 's', 'x', 'p'):
+            return 1
+        if k == 'c':
+            for a in it[2]:
+                item(a)
+            return 1
+        if k == 'g':
+            return sum(alt(a) for a in it[1])
+        if k == 'm':
+            return sum(alt(a) for a in it[1]) + 1
+        if k == 'q':
+            n = item(it[1])
+            if it[2] == '?':
+                return n + 1
+            if it[2] in '*+':
+                worst[0] = max(worst[0], 2 * n)
+                return 2 if it[2] == '*' else 1
+            lo, hi = it[3], it[4]
+            if hi >= 50:
+                worst[0] = max(worst[0], n * 10)
+                return 1
+            return sum(n ** e for e in range(lo, hi + 1))
+        raise ValueError(it)
+
+    def alt(a):
+        n = 1
+        for i in a['items']:
+            n *= item(i)
+        return n
+    for r in G['rules']:
+        worst[0] = max(worst[0], sum(alt(a) for a in r['alts']))
+    return worst[0]
+
+
 # ------------------------------------------------------------------ documented GrammarError predicate
 
 def colliding_optionals(G, want_dup_empty=False):
